@@ -15,7 +15,7 @@ import (
 
 func init() {
 	seqChecks["c11"] = &seqCheck{run: runC11, replay: replayC11,
-		rule: "every well-formed history of <=4 (5 thorough) operations, grouped into read/write transactions on ids {'',a,b}, over {Create v1, Create v2, Create wrong type, Update, Delete, Value, Exists} with a BeforeChange veto on or off, for mockstore and badgerstore (untyped / typed, with / without prefix); reference = Go map + expected callback list; distinct = distinct (store kind, history, result vector)"}
+		rule: "every well-formed history of <=4 (5 thorough) operations, grouped into read/write transactions on ids {'',a,b}, over {Create v1, Create v2, Create wrong type, Update, Delete, Value, Exists} with a BeforeChange veto on or off, for mockstore and badgerstore (untyped / typed, with / without prefix, with and without any registered listener); reference = Go map + expected callback list; distinct = distinct (store kind, history, result vector)"}
 }
 
 type c11Rec struct {
@@ -28,6 +28,8 @@ type c11Kind struct {
 	typed  bool
 	prefix string
 	mock   bool
+	// nolisten: no change listener is registered at all (results and final content only)
+	nolisten bool
 }
 
 var c11Kinds = []c11Kind{
@@ -36,6 +38,8 @@ var c11Kinds = []c11Kind{
 	{name: "badger-untyped-prefix", prefix: "ba"},
 	{name: "badger-typed", typed: true},
 	{name: "badger-typed-prefix", typed: true, prefix: "ba"},
+	{name: "badger-untyped-nolisten", nolisten: true},
+	{name: "mock-nolisten", mock: true, nolisten: true},
 }
 
 func (k c11Kind) val(i int) interface{} {
@@ -120,7 +124,9 @@ func c11Run(k c11Kind, db *badger.DB, veto bool, h []c11Txn, emit func(desc stri
 	}
 	if k.mock {
 		ms := mockstore.NewStore()
-		ms.OnChange(onChange)
+		if !k.nolisten {
+			ms.OnChange(onChange)
+		}
 		st = ms
 	} else {
 		bs := badgerstore.NewStore(db)
@@ -128,8 +134,10 @@ func c11Run(k c11Kind, db *badger.DB, veto bool, h []c11Txn, emit func(desc stri
 			bs.SetType(c11Rec{})
 		}
 		bs.SetPrefix(k.prefix)
-		bs.OnChange(onChange)
-		if veto {
+		if !k.nolisten {
+			bs.OnChange(onChange)
+		}
+		if veto && !k.nolisten {
 			bs.BeforeChange(func(id string, before, after interface{}) error {
 				if vetoes(before, after) {
 					return errVeto
@@ -296,7 +304,9 @@ func c11Run(k c11Kind, db *badger.DB, veto bool, h []c11Txn, emit func(desc stri
 		}
 	}
 	// callbacks: exactly the successful mutations, with the value immediately before and after
-	if len(cbs) != len(wantCBs) {
+	if k.nolisten {
+		// nothing registered: only results and content are compared
+	} else if len(cbs) != len(wantCBs) {
 		emit(fmt.Sprintf("%d change callbacks, want %d", len(cbs), len(wantCBs)))
 	} else {
 		for i := range cbs {
@@ -391,7 +401,7 @@ func runC11(c *seqCtx) {
 	defer db.Close()
 	for _, k := range c11Kinds {
 		for _, veto := range []bool{false, true} {
-			if veto && k.mock {
+			if veto && (k.mock || k.nolisten) {
 				continue
 			}
 			mo := maxOps
